@@ -112,6 +112,20 @@ fn handle_faucet_tx<C: ContentAddrStore>(
     Ok(())
 }
 
+/// The least fee a transaction must pay: its weight, which includes the weight of every covenant it
+/// lists, times the fee multiplier. `Transaction::weight` adds the covenant weights up with a plain sum,
+/// and a covenant's weight saturates at `u128::MAX` (a few nested loops are enough): next to such a
+/// covenant any other one made the sum wrap around to almost nothing (or trap, with overflow checks).
+/// Hand it weights that cannot add up to more than `u128::MAX`, i.e. a saturating sum.
+fn minimum_fee(tx: &Transaction, fee_multiplier: u128) -> CoinValue {
+    let headroom = std::cell::Cell::new(u128::MAX);
+    tx.base_fee(fee_multiplier, 0, |covenant| {
+        let weight = covenant_weight_from_bytes(covenant).min(headroom.get());
+        headroom.set(headroom.get() - weight);
+        weight
+    })
+}
+
 fn create_next_state<C: ContentAddrStore>(
     mut next_state: UnsealedState<C>,
     transactions: &[Transaction],
@@ -143,9 +157,7 @@ fn create_next_state<C: ContentAddrStore>(
         }
 
         // fees
-        let min_fee = tx.base_fee(next_state.fee_multiplier, 0, |c| {
-            covenant_weight_from_bytes(c)
-        });
+        let min_fee = minimum_fee(tx, next_state.fee_multiplier);
         if tx.fee < min_fee {
             return Err(StateError::InsufficientFees(min_fee));
         } else {
